@@ -1432,3 +1432,215 @@ def r10_5(ctx):
             ctx.violation([tr.name, "resolve-candidates"], "try_resolve can return a path other than `ext` / `self.p.join(ext)`: %s" % bad[:3], site=ctx.site(tr, bb))
         else:
             ctx.ok("resolved path is ext or self.p.join(ext)", site=ctx.site(tr, bb))
+
+
+@rule("C01", "R01.9", floor=1)
+def r01_9(ctx):
+    """directive output keeps its final newline iff it had one: the flag handed to the output formatter is `raw.ends_with('\\n')` of
+    the very text whose lines() are formatted (lines() accepts both \\n and \\r\\n, so testing for the FILE's line ending instead loses
+    the final newline of LF output in a CRLF file and glues the next source line on)"""
+    lib = ctx.lib
+    fdo = body(ctx, "format_directive_output")
+    if not fdo:
+        return
+    p_flag = fdo.param_index_by_name("has_trailing_newline")
+    p_it = fdo.param_index_by_name("raw_output")
+    EW = "std::str::<impl str>::ends_with"
+    n = 0
+    for (b, bb, t) in C.all_call_sites(lib, lambda ns, t: fdo.name in ns):
+        flag = t["args"][p_flag - 1]
+        if C.op_const(flag) in ("true", "false"):
+            continue      # temp content: a literal
+        n += 1
+        site = ctx.site(b, bb)
+        lv = C.trace(b, flag)
+        ok = bool(lv)
+        for l in lv:
+            if not (l.kind == "call" and C.callee_name(l.data) == EW and C.op_const(l.data["args"][1]) == "'\\n'"):
+                ok = False
+                continue
+            # same text as the one whose lines() are formatted
+            txt = {(x.kind, x.bb, C.pl_str(x.data) if x.kind == "field" else None) for x in C.trace(b, l.data["args"][0])}
+            its = C.trace(b, t["args"][p_it - 1], transparent=lambda tt: C.is_transparent(tt) or T.item_preserving(C.callee_name(tt)))
+            src = set()
+            for x in its:
+                if x.kind == "call" and C.callee_name(x.data) == "std::str::<impl str>::lines":
+                    src |= {(y.kind, y.bb, C.pl_str(y.data) if y.kind == "field" else None) for y in C.trace(b, x.data["args"][0])}
+            if not (txt & src):
+                ok = False
+        if ok:
+            ctx.ok("trailing-newline flag = ends_with('\\n') of the formatted text|%s" % b.name, site=site)
+        else:
+            ctx.violation([b.name, "trailing-newline-flag"], "the trailing-newline flag of directive output is not `ends_with('\\n')` of the text being "
+                          "formatted: %s" % [repr(l) for l in lv][:3], site=site)
+    if n == 0:
+        ctx.anchor_missing("a format_directive_output call with a computed trailing-newline flag")
+
+
+@rule("C10", "R10.6", floor=2)
+def r10_6(ctx):
+    """which names are sources is decided the way the output name is computed: is_txtpp_file compares Path::extension() of the name and
+    of the name without its last extension with the constant (= C11 R11.6); a string-based test disagrees with remove_txtpp on dot-files
+    (`.txtpp`), whose 'output' would then be the file itself"""
+    r11_6(ctx)
+
+
+@rule("C16", "R16.7", floor=1)
+def r16_7(ctx):
+    """while a directive is open, a line is only ever offered to add_line: detect_from is not consulted on the path where a current
+    directive exists (text inside a write block that looks like a directive must stay text)"""
+    lib = ctx.lib
+    it = body(ctx, "iterate_directive")
+    if not it:
+        return
+    is_cur = lambda c: has_field(C.trace(it, c.place, through_fields=True), "cur_directive") or has_field(c.src, "cur_directive")
+    none_e = enum_edges(it, lib, "std::option::Option", lambda vs: vs == {"None"}, src_pred=is_cur)
+    some_e = enum_edges(it, lib, "std::option::Option", lambda vs: vs == {"Some"}, src_pred=is_cur)
+    dets = calls_to(it, ROLE["detect_from"])
+    if not dets or not some_e:
+        ctx.anchor_missing("detect_from call / match on cur_directive in iterate_directive")
+        return
+    reg = C.region(it, some_e)
+    for bb, t in dets:
+        if bb in reg:
+            ctx.violation([it.name, "detect-while-open"], "detect_from is applied to a line while a directive is being continued: argument text "
+                          "that looks like a directive would be treated as one", site=ctx.site(it, bb))
+        else:
+            ctx.ok("detect_from only when no directive is open", site=ctx.site(it, bb))
+
+
+@rule("C01", "R01.10", floor=1)
+def r01_10(ctx):
+    """a temp directive always reaches the temp writer: execute_directive_temp returns Ok only past a write_temp_file call (whether the
+    file is rewritten is decided there, by comparing contents — not earlier, by something like a timestamp)"""
+    lib = ctx.lib
+    et = body(ctx, "execute_directive_temp")
+    if not et:
+        return
+    ws = [bb for bb, t in calls_to(et, ROLE["write_temp_file"])]
+    if not ws:
+        ctx.anchor_missing("write_temp_file call in execute_directive_temp")
+        return
+    cut = out_edges(et, ws)
+    bad = [bb for bb in ok_sites(et) if not C.guarded(et, bb, cut)]
+    if bad:
+        ctx.violation([et.name, "temp-skipped"], "execute_directive_temp can return Ok without handing the target to write_temp_file",
+                      site=ctx.site(et, bad[0]), witness=C.witness(et, bad[0], cut))
+    else:
+        ctx.ok("temp directives always reach write_temp_file", site=ctx.site(et, ws[0]))
+
+
+PATH_NAME_SURGERY = re.compile(r"^std::path::(Path|PathBuf)::(file_stem|file_prefix|with_file_name|set_file_name|to_str|to_string_lossy|display|parent|join|push|pop"
+                               r"|components|iter|strip_prefix|starts_with|ends_with)$|^std::ffi::(OsStr|OsString)::(to_str|to_string_lossy|into_string|as_encoded_bytes|to_ascii_.*)$")
+
+
+@rule("C11", "R11.9", floor=3)
+def r11_9(ctx):
+    """source <-> output names are related only through the extension of the full file name: is_txtpp_file / get_txtpp_file / remove_txtpp
+    use Path::extension, set_extension / with_extension and OsString concatenation, never stem / file-name surgery or string conversion
+    (`with_file_name(file_stem()).with_extension(..)` drops the inner dots of `a.b.c`; a string test disagrees with extension() on
+    dot-files)"""
+    lib = ctx.lib
+    for role_name in ("is_txtpp_file", "get_txtpp_file", "remove_txtpp"):
+        b = body(ctx, role_name)
+        if not b:
+            continue
+        bad = sorted({C.callee_name(t) for bb, t in b.calls() if PATH_NAME_SURGERY.match(C.callee_name(t) or "")
+                      and not (t["span"].get("macro") or t["span"].get("exp"))})
+        # error messages may display the path
+        bad = [x for x in bad if not x.endswith("::display")]
+        if bad:
+            ctx.violation([b.name, "name-surgery", ",".join(bad)[:120]], "%s manipulates the file name through %s (only the extension of the full name "
+                          "may be inspected / replaced)" % (role_name, bad), site=ctx.site(b, 0))
+        else:
+            ctx.ok("%s works on the extension of the full name only" % role_name, site=ctx.site(b, 0))
+
+
+@rule("C14", "R14.8", floor=1)
+def r14_8(ctx):
+    """leftmost-first: the candidates for substitution are ordered by the position where each tag was FOUND (the `find` result itself, not
+    position + length or any other derived number)"""
+    lib = ctx.lib
+    inj = body(ctx, "tag_inject")
+    if not inj:
+        return
+    sorts = [(bb, t) for bb, t in inj.calls() if T.SORT_RE.match(C.callee_name(t) or "")]
+    if not sorts:
+        ctx.anchor_missing("sort of the injection candidates in inject_tags")
+        return
+    bodies = [inj] + lib.closures_of(inj)
+    for bb, t in sorts:
+        cl = lib.bodies.get((t["arg_tys"][1].get("closure") if len(t.get("arg_tys", [])) > 1 else "") or "")
+        if cl is None:
+            ctx.unverified("sort without a local key / comparator closure", site=ctx.site(inj, bb))
+            continue
+        # fields of the element the closure reads
+        keys = set()
+        for cbb, si, st in cl.stmts():
+            for pl in _places_of(st):
+                if cl.is_param(pl["l"]) and pl["l"] >= 2:
+                    fl = [e for e in pl["p"] if e["k"] == "field"]
+                    if fl:
+                        keys.add((fl[0].get("owner"), fl[0].get("i"), tuple((e.get("owner"), e.get("i")) for e in fl[1:])))
+        for cbb, ct in cl.calls():
+            for a in ct["args"]:
+                pl = C.op_place(a)
+                if pl is not None and cl.is_param(pl["l"]) and pl["l"] >= 2:
+                    fl = [e for e in pl["p"] if e["k"] == "field"]
+                    if fl:
+                        keys.add((fl[0].get("owner"), fl[0].get("i"), tuple((e.get("owner"), e.get("i")) for e in fl[1:])))
+        if not keys:
+            ctx.unverified("sort key closure reads no element field", site=ctx.site(inj, bb))
+            continue
+        bad = []
+        found = 0
+        for (owner, idx, rest) in keys:
+            for b2 in bodies:
+                for abb, st in [(x, y) for x, _si, y in b2.stmts() if y["k"] == "assign" and y["rv"]["k"] == "aggregate"]:
+                    a = st["rv"]["agg"]
+                    if not ((a["k"] == "tuple" and owner == "(tuple)") or (a["k"] == "adt" and a.get("adt") == owner)):
+                        continue
+                    if idx is None or idx >= len(st["rv"]["ops"]):
+                        continue
+                    op = st["rv"]["ops"][idx]
+                    for (o2, i2) in rest:
+                        # nested: the key is a field of a struct stored in the element (e.g. a Range's end)
+                        srcs = C._agg_sources(b2, C.op_place(op)["l"], {"owner": o2, "i": i2}, C.is_transparent) if C.op_place(op) else None
+                        if not srcs:
+                            op = None
+                            break
+                        op = srcs[0][1][i2]
+                    if op is None:
+                        bad.append("key field not traceable")
+                        continue
+                    lv = C.trace(b2, op)
+                    if not lv:
+                        continue
+                    found += 1
+                    for l in lv:
+                        if not (l.kind == "call" and C.callee_name(l.data) == "std::str::<impl str>::find"):
+                            bad.append(repr(l))
+        if found == 0:
+            ctx.unverified("element construction of the sorted candidates not found", site=ctx.site(inj, bb))
+        elif bad:
+            ctx.violation([inj.name, "sort-key"], "the injection candidates are not ordered by the position found: the sort key derives from %s" % sorted(set(bad))[:3],
+                          site=ctx.site(inj, bb))
+        else:
+            ctx.ok("candidates are sorted by the find() position", site=ctx.site(inj, bb))
+
+
+def _places_of(st):
+    out = []
+    if st["k"] != "assign":
+        return out
+    rv = st["rv"]
+    for key in ("op", "a", "b"):
+        o = rv.get(key)
+        if isinstance(o, dict) and o.get("k") in ("copy", "move"):
+            out.append(o["pl"])
+    if "pl" in rv and isinstance(rv["pl"], dict):
+        out.append(rv["pl"])
+    for o in rv.get("ops", []) or []:
+        if o.get("k") in ("copy", "move"):
+            out.append(o["pl"])
+    return out
